@@ -70,6 +70,10 @@ def run_cvc5(path, timeout_s):
     return _verdict(out), out, dt
 
 
+import itertools as _it
+_qcounter = _it.count()
+
+
 def _race(cmds, timeout):
     """run solver commands concurrently; return [(tag, verdict, seconds)] as they finish and stop
     at the first definitive answer (sat/unsat).  `both`-mode callers pass wait_all=True."""
@@ -90,7 +94,9 @@ def solve_text(text, want_model, t_z3=10, t_cvc5=20, both=False, workdir=None):
     d = workdir or tempfile.mkdtemp(prefix='pyvc-')
     tried = []
     try:
-        path = os.path.join(d, 'q%d_%d.smt2' % (os.getpid(), abs(hash(text)) % 10**9))
+        # unique per call: two obligations with identical text must not share (and truncate)
+        # each other's query file
+        path = os.path.join(d, 'q%d_%d.smt2' % (os.getpid(), next(_qcounter)))
         with open(path, 'w') as f:
             f.write(text)
             f.write('\n')
@@ -311,8 +317,14 @@ def discharge(obls, want_models=True, t_z3=10, t_cvc5=20, both=False, jobs=None)
             res['status'] = {'sat': 'discharged', 'unsat': 'failed'}.get(v, 'unknown')
         return res
 
+    # identical queries (the same obligation reached on several paths) are solved once
+    first = {}
+    for i, (o, t) in enumerate(zip(obls, texts)):
+        first.setdefault((o.expect, t), i)
+    todo = sorted(first.values())
     try:
         with ThreadPoolExecutor(max_workers=jobs) as ex:
-            return list(ex.map(work, range(len(obls))))
+            solved = dict(zip(todo, ex.map(work, todo)))
+        return [dict(solved[first[(o.expect, t)]]) for o, t in zip(obls, texts)]
     finally:
         shutil.rmtree(d, ignore_errors=True)
